@@ -1,5 +1,6 @@
 mod common;
 mod c03;
+mod c06;
 mod c13;
 mod c15;
 mod c16;
@@ -18,6 +19,7 @@ type ReplayFn = fn(&Value) -> Vec<Violation>;
 fn registry(id: &str) -> Option<(RunFn, ReplayFn)> {
     match id {
         "C03" => Some((c03::run, c03::replay)),
+        "C06" => Some((c06::run, c06::replay)),
         "C13" => Some((c13::run, c13::replay)),
         "C15" => Some((c15::run, c15::replay)),
         "C16" => Some((c16::run, c16::replay)),
